@@ -1034,6 +1034,18 @@ func checkTcbInfoTcbStatus(tcbInfo pcs.TcbInfo, tdQuoteBody *pb.TDQuoteBody, pck
 		return err
 	}
 
+	// The TDX module's TCB level does not replace the platform's TCB level: both have to be up to date.
+	platform, err := getMatchingTcbLevel(tcbInfo.TcbLevels, tdQuoteBody, pckCertExtensions.TCB.PCESvn, pckCertExtensions.TCB.CPUSvnComponents)
+	if err != nil {
+		return err
+	}
+	if platform.TcbStatus == pcs.TcbComponentStatusOutOfDate {
+		return ErrTdxTcbStatus
+	}
+	if platform.TcbStatus != pcs.TcbComponentStatusUpToDate {
+		return fmt.Errorf("TDX TCB Status is not %q, found %q", pcs.TcbComponentStatusUpToDate, platform.TcbStatus)
+	}
+
 	if found.TcbStatus == pcs.TcbComponentStatusOutOfDate {
 		return ErrTdxTcbStatus
 	}
